@@ -7,3 +7,21 @@
 mod float_helpers;
 #[cfg(kani)]
 mod rounding;
+
+/// C15: replacement for the global allocation entry point in configurations without `alloc`.
+#[cfg(kani)]
+pub unsafe fn forbid_alloc(_layout: core::alloc::Layout) -> *mut u8 {
+    panic!("HEAP-ALLOCATION");
+}
+
+#[cfg(kani)]
+mod alloc_twin {
+    /// vacuity twin: this harness allocates on purpose and MUST fail under the stub
+    #[kani::proof]
+    #[kani::stub(std::alloc::alloc, crate::forbid_alloc)]
+    fn c15_twin_must_fail() {
+        let x: u8 = kani::any();
+        let v = vec![x];
+        assert!(v.len() == 1);
+    }
+}
